@@ -44,6 +44,7 @@ func runC11(c *Ctx) {
 	checkDataFileWrites(c, "C11.19")
 	c02RecordDescribes(c, "C11.20")
 	ruleSeparatorIsFirstKey(c, "C11.21")
+	rulePagesOnlyGrow(c, "C11.22")
 	// advisory: direct indexing
 	for _, name := range []string{"storage.(*btreeNode).updateCell", "storage.(*btreeNode).split", "storage.WALBatch.replay"} {
 		f := c.W.F(name)
@@ -337,6 +338,46 @@ func c11Fullness(c *Ctx, rule string) {
 			}
 		}
 		c.Check(okSplit, rule, key, f.Decl.Pos(), "split is reached exactly on the full edge", "the isFull() test does not lead to split on its full edge")
+	}
+	// the same obligation for every other caller: whoever hands a node to insertLeaf / insertInternal as `parent`
+	// (where a split of the child adds a separator to it) tests that node's fullness afterwards
+	for _, name := range c.W.SortedFuncNames() {
+		f := c.W.Funcs[name]
+		if f.Pkg != c.W.Pkgs["storage"] || f.Name == "storage.(*BTree).insertInternal" {
+			continue
+		}
+		for i, call := range f.Calls(f.Decl.Body, false, "storage.BTree.insertLeaf", "storage.BTree.insertInternal") {
+			if len(call.Args) == 0 || isNilIdent(f, ast.Unparen(call.Args[0])) {
+				continue
+			}
+			key := f.Name + "|hands-parent#" + itoa(i+1)
+			pid, ok := ast.Unparen(call.Args[0]).(*ast.Ident)
+			if !ok {
+				c.Undecided(rule, key, "the parent handed to %s is not a plain variable", exprKey(call.Fun))
+				continue
+			}
+			g := f.Graph()
+			loc, _ := g.Locate(call)
+			miss, _ := g.Forward(&loc, g.SuccessEdges, func(nn ast.Node, at Loc) Verdict {
+				for _, fc := range f.Calls(nn, false, "storage.btreeNode.isFull") {
+					if id, ok := ast.Unparen(fc.Fun.(*ast.SelectorExpr).X).(*ast.Ident); ok && f.ObjOf(id) == f.ObjOf(pid) {
+						return Cut
+					}
+				}
+				if r, ok := nn.(*ast.ReturnStmt); ok {
+					if g.ReturnMayBeNil(r) {
+						return Hit
+					}
+					return Cut
+				}
+				return Go
+			}, func(b *cfg.Block) Verdict { return Hit })
+			if miss {
+				c.FailConfined(rule, key, call.Pos(), "%s hands %s to %s as the parent of the node it inserts into — a split of that node adds a separator to %s — and can return successfully without testing %s.isFull(): the code that splits a full internal node is bypassed and the node grows past the capacity the page layout allows", f.Name, pid.Name, exprKey(call.Fun), pid.Name, pid.Name)
+			} else {
+				c.OK(rule, key, call.Pos(), 1, "%s.isFull() is tested on every success path after the child insert", pid.Name)
+			}
+		}
 	}
 }
 
